@@ -253,7 +253,9 @@ class World:
         fc = 0.5 * (fc + fc.transpose(1, 0, 3, 2))
         for i in range(n):
             fc[i, i] = -fc[i].sum(axis=0) + fc[i, i]
-        return np.ascontiguousarray(fc)
+        # "unstable" worlds: all springs repulsive, i.e. imaginary (negative) frequencies everywhere - still a symmetric,
+        # translation- and space-group-invariant force-constant matrix
+        return np.ascontiguousarray(fc * float(self.spec.get("fc_sign", 1.0)))
 
     def nac_params(self, primitive):
         if not self.nac_method:
